@@ -636,3 +636,10 @@ def subscript_writes(node: ast.AST):
 def const_value(node: ast.AST):
     """literal_eval restricted to literal nodes; raises ValueError otherwise."""
     return ast.literal_eval(node)
+
+
+def recv(call: ast.AST) -> str:
+    """Source text of the receiver of a method call (`a.b` for `a.b.m()`), '' for plain calls."""
+    if isinstance(call, ast.Call) and isinstance(call.func, ast.Attribute):
+        return norm(call.func.value)
+    return ''
